@@ -235,6 +235,10 @@ NAMING = {
     "renamed-binding": ('version: "3"\nstruct M { a @0: u8, }\nimpl can for M as Status { id: 10, device: "ecu", }\n', [("ecu", "Status", {"a": 9}, "09")]),
     "enums-sharing-an-enumerator": ('version: "3"\nenum A { Off = 0, On = 1, }\nenum B { Off = 0, Fast = 2, }\nstruct M { a @0: A, b @1: B, }\nimpl can for M { id: 11, device: "ecu", }\n', [("ecu", "M", {"a": 1, "b": 2}, "05")]),
     "signal-macro-names-collide": ('version: "3"\nstruct Foo { pad @0: u8, bar_x @1: u8, }\nstruct FooBar { x @0: u16, }\nimpl can for Foo { id: 12, device: "ecu", }\nimpl can for FooBar { id: 13, device: "ecu", }\n', [("ecu", "Foo", {"pad": 1, "bar_x": 200}, "01c8"), ("ecu", "FooBar", {"x": 513}, "0102")]),
+    "signal-macro-names-collide-with-double-underscore": ('version: "3"\nstruct Inv { l__temp @0: u8, }\nstruct Inv_L { speed @0: u8, temp @1: u8, }\nimpl can for Inv { id: 30, device: "ecu", }\nimpl can for Inv_L { id: 31, device: "ecu", }\n', [("ecu", "Inv", {"l__temp": 90}, "5a"), ("ecu", "Inv_L", {"speed": 1, "temp": 2}, "0102")]),
+    "message-keyword-in-snake-case": ('version: "3"\nstruct Switch { pressed @0: u1, count @1: u7, }\nimpl can for Switch { id: 17, device: "dash", }\n', [("dash", "Switch", {"pressed": 1, "count": 100}, "c9")]),
+    "messages-equal-in-snake-case": ('version: "3"\nstruct MotorTemp { celsius @0: i12, }\nstruct motor_temp { raw @0: u16, }\nimpl can for MotorTemp { id: 100, device: "inv", }\nimpl can for motor_temp { id: 101, device: "inv", }\n', [("inv", "MotorTemp", {"celsius": -5}, "fb0f"), ("inv", "motor_temp", {"raw": 258}, "0201")]),
+    "devices-equal-in-snake-case": ('version: "3"\nstruct M { a @0: u8, }\nstruct N { c @0: u16, }\nimpl can for M { id: 5, device: "Ecu", }\nimpl can for N { id: 6, device: "ecu", }\n', [("Ecu", "M", {"a": 7}, "07"), ("ecu", "N", {"c": 258}, "0201")]),
     "nested-and-array-names": ('version: "3"\nstruct In { v @0: u4, w @1: u4, }\nstruct M { in_ @0: In, arr @1: [u8, 2], }\nimpl can for M { id: 14, device: "ecu", }\n', [("ecu", "M", {"in__v": 1, "in__w": 2, "arr_0": 3, "arr_1": 4}, "210304")]),
 }
 
@@ -326,7 +330,7 @@ def run(tier):
         "directed 5..8-signal messages; each is generated by the real fcp_can_c generator, compiled with gcc together with a generated main(), and run for every boundary value (product <= 64 else star): "
         "frame id/dlc/data must equal the reference packing and decode(encode(v)) == v. non-trivial = >= 2 signals."
     )
-    r.assumptions = ["gcc 12 decides 'compiles'", "-0.0 and NaN excluded (runtime applies scale*x+offset)", "names read back from the generated header"]
+    r.assumptions = ["gcc 12 decides 'compiles'", "NaN and infinities excluded (no portable C literal); -0.0 included and compared bit for bit", "names read back from the generated header"]
     return r.finish()
 
 
